@@ -5,9 +5,29 @@ PROPS = ["C08", "C13"]   # a lost insert_idle from a callback is also "does not 
 PROFILES = [(3, {"script_prob": 1.0, "script_len": (2, 6), "self_panic_prob": 0.0, "idle_prob": 0.15, "idle_burst_prob": 0.08}), (1, {"self_panic_prob": 0.05})]
 
 
+def handles_of_other_sources(chk, st):
+    """`ping/send/schedule on calloop's own handles` from inside callbacks: the executor's Scheduler used from the executor's own
+    completion callback and from inside a running future (harness/src/m_cexec.rs, cexecre)"""
+    import p_c03
+    import vlib
+    cases = ["%d %d" % (n, d) for n in (1, 2, 5) for d in (0, 1, 3)]
+    out = p_c03.run_batch(vlib.HARNESS, "cexecre", cases)
+    bad = [(c, o) for c, o in zip(cases, out) if len(o.split()) != 3 or o.split()[2] != "0" or o.split()[0] != o.split()[1]]
+    chk.cov["schedule_from_callbacks_cases"] = {"cases": cases, "results(delivered expected panicked)": out}
+    if bad:
+        c, o = bad[0]
+        what = "schedule() from inside the executor's completion callback / a running future panicked (double borrow)" if o.endswith(" 1") or "PANIC" in o \
+            else "tasks scheduled from inside callbacks were not all run"
+        chk.violation("oracle-schedule", "C08 violated on the real code: %s\nscheduling from callbacks (tasks, generations): %s\n# result (delivered expected panicked): %s" % (what, c, o))
+
+
 def main(tier, seed):
-    return p_seqprops.run("C08", tier, seed, PROFILES, props=PROPS)
+    return p_seqprops.run("C08", tier, seed, PROFILES, props=PROPS, extra_front=handles_of_other_sources)
 
 
 def replay(path):
+    txt = open(path).read()
+    if "scheduling from callbacks (tasks, generations):" in txt:
+        import p_c10
+        return p_c10.replay(path)
     return p_seqprops.replay("C08", path, props=PROPS)
